@@ -454,7 +454,8 @@ class ManifestRecursiveLoader:
                 if e.tag != 'MANIFEST':
                     continue
                 t = os.path.join(d, e.path)
-                if (t != k and t not in seen and t in per_dir[d]):
+                if (t != k and t not in seen and t in per_dir[d]
+                        and t != self.top_level_manifest_filename):
                     ret = max(ret, 1 + height(t, seen + (k,)))
             return ret
 
@@ -463,6 +464,9 @@ class ManifestRecursiveLoader:
             if len(keys) > 1:
                 for k in keys:
                     heights[k] = height(k, ())
+                # (the top-level Manifest is nobody's sub-Manifest)
+                if self.top_level_manifest_filename in keys:
+                    heights[self.top_level_manifest_filename] = len(keys)
 
         # NB: the sort is stable, so reverse the load order first
         # to keep the remaining order as it used to be
@@ -1469,6 +1473,8 @@ class ManifestRecursiveLoader:
         # a Manifest whose MANIFEST entry has just been removed (it lies
         # in an ignored or hidden directory) or that never got one
         # is not part of the tree, so do not attempt to save it
+        # (the top-level Manifest is never referenced, and always stays)
+        unlinked_manifests.discard(self.top_level_manifest_filename)
         for mpath in unlinked_manifests:
             self.updated_manifests.discard(mpath)
             self.loaded_manifests.pop(mpath, None)
